@@ -46,6 +46,43 @@ static inline void cxx2c_PyErr_SetString (int kind, const char *msg) { (void) ms
 #define cxx2c_assert_fail(e, f, l, fn) __CPROVER_assert (0, "assert() in the extracted code")
 #endif
 
+/* ---- ghost model of std::ostream for the stream-output clause of C04: the stream is a log of insertions ---- */
+#define CXX2C_OS_MAX 96
+enum { CXX2C_TOK_CHAR = 1, CXX2C_TOK_STR, CXX2C_TOK_F32, CXX2C_TOK_F64, CXX2C_TOK_INT, CXX2C_TOK_SETW };
+struct cxx2c_ostream { int n; int kind[CXX2C_OS_MAX]; unsigned long val[CXX2C_OS_MAX]; };
+struct cxx2c_setw { int w; };
+static inline struct cxx2c_ostream *cxx2c_os_put (struct cxx2c_ostream *os, int kind, unsigned long val)
+{
+    if (os->n < CXX2C_OS_MAX) { os->kind[os->n] = kind; os->val[os->n] = val; }
+    os->n++;
+    return os;
+}
+static inline struct cxx2c_ostream *cxx2c_os_char (struct cxx2c_ostream *os, char c) { return cxx2c_os_put (os, CXX2C_TOK_CHAR, (unsigned long) (unsigned char) c); }
+/* a string literal is logged character by character, so "(" and '(' are the same output */
+static inline struct cxx2c_ostream *cxx2c_os_str (struct cxx2c_ostream *os, const char *s) { for (int i = 0; s[i] && i < 8; i++) cxx2c_os_put (os, CXX2C_TOK_CHAR, (unsigned long) (unsigned char) s[i]); return os; }
+static inline struct cxx2c_ostream *cxx2c_os_float (struct cxx2c_ostream *os, float x) { union { float f; unsigned u; } v; v.f = x; return cxx2c_os_put (os, CXX2C_TOK_F32, v.u); }
+static inline struct cxx2c_ostream *cxx2c_os_double (struct cxx2c_ostream *os, double x) { union { double f; unsigned long u; } v; v.f = x; return cxx2c_os_put (os, CXX2C_TOK_F64, v.u); }
+static inline struct cxx2c_ostream *cxx2c_os_long (struct cxx2c_ostream *os, long x) { return cxx2c_os_put (os, CXX2C_TOK_INT, (unsigned long) x); }
+static inline struct cxx2c_setw cxx2c_setw_make (int w) { struct cxx2c_setw r; r.w = w; return r; }
+static inline struct cxx2c_ostream *cxx2c_os_setw (struct cxx2c_ostream *os, struct cxx2c_setw w) { return cxx2c_os_put (os, CXX2C_TOK_SETW, (unsigned long) w.w); }
+#ifndef VF_NATIVE
+int __CPROVER_uninterpreted_ios_flags (int);
+long __CPROVER_uninterpreted_ios_precision (int);
+#ifdef CXX2C_IOS_FLAGS_VALUE
+#define CXX2C_IOS_FLAGS(os) (CXX2C_IOS_FLAGS_VALUE)   /* one unit per format-flag case (fixed / not fixed) */
+#else
+#define CXX2C_IOS_FLAGS(os) __CPROVER_uninterpreted_ios_flags (0)
+#endif
+#define CXX2C_IOS_PREC(os) __CPROVER_uninterpreted_ios_precision (0)
+#else
+#define CXX2C_IOS_FLAGS(os) 0
+#define CXX2C_IOS_PREC(os) 6
+#endif
+static inline int cxx2c_ios_flags (void *os) { (void) os; return CXX2C_IOS_FLAGS (os); }
+static inline int cxx2c_ios_setflags (void *os, int f) { (void) os; (void) f; return CXX2C_IOS_FLAGS (os); }
+static inline int cxx2c_ios_setf (void *os, int f) { (void) os; (void) f; return CXX2C_IOS_FLAGS (os); }
+static inline long cxx2c_ios_precision (void *os) { (void) os; return CXX2C_IOS_PREC (os); }
+
 /* element operations of the vectorised kernels (C20): arbitrary pure functions */
 #ifndef VF_NATIVE
 int __CPROVER_uninterpreted_vfop2 (int, int);
